@@ -46,7 +46,7 @@ def pick_charge(rng, sym, chargemaps, duals):
 
 
 def rand_array(rng, sr, sym, ndim=None, chargemaps=None, duals=None, charge=None, cplx=False,
-               keep=None, fermionic=False, static=None, oddpos=None, maxcharges=3, maxsize=3, lo=-3, hi=3):
+               keep=None, fermionic=False, static=None, oddpos=None, maxcharges=3, maxsize=3, lo=-3, hi=3, keep_label=False):
     """Build an Abelian/Fermionic array with integer data; a random subset of
     the valid sectors is stored (keep = probability, None = random regime)."""
     if ndim is None:
@@ -83,7 +83,7 @@ def rand_array(rng, sr, sym, ndim=None, chargemaps=None, duals=None, charge=None
         par = refsym.par(sym, charge)
         if oddpos is None and par:
             oddpos = rng.randint(1, 50)
-        kw = dict(indices=ixs, charge=charge, blocks=blocks, oddpos=oddpos if (par or isinstance(oddpos, list)) else None)
+        kw = dict(indices=ixs, charge=charge, blocks=blocks, oddpos=oddpos if (par or isinstance(oddpos, list) or keep_label) else None)   # keep_label: an even array GIVEN a label (the library drops it)
     else:
         cls = getattr(sr, STATIC[sym]) if static else sr.AbelianArray
         kw = dict(indices=ixs, charge=charge, blocks=blocks)
